@@ -911,7 +911,13 @@ pub fn run(opts: &Opts, out: &mut Emitter) {
             if !is_lit {
                 continue;
             }
-            let repls: &[&str] = if opts.thorough { &["0xabc", "0x0", "99999999999999999999", "-9223372036854775809", "\"é✓😀\"", "0xab#1", "()"] } else { &["0xabc", "99999999999999999999"] };
+            // (the long strings put a multi-byte character across every limit a diagnostic might cut at)
+            let repls: &[&str] = if opts.thorough {
+                &["0xabc", "0x0", "99999999999999999999", "-9223372036854775809", "\"é✓😀\"", "0xab#1", "()",
+                  "\"€€€€€€€€€€€€€€€€€€€€€€€€€€€€€€\"", "\"a漢漢漢漢漢漢漢漢漢漢漢漢漢漢漢漢漢漢漢漢漢漢漢漢\"", "\"ab😀😀😀😀😀😀😀😀😀😀😀😀😀😀😀😀😀😀\""]
+            } else {
+                &["0xabc", "99999999999999999999", "\"€€€€€€€€€€€€€€€€€€€€€€€€€€€€€€\"", "\"a漢漢漢漢漢漢漢漢漢漢漢漢漢漢漢漢漢漢漢漢漢漢漢漢\""]
+            };
             for rep in repls {
                 let mut ts = toks.clone();
                 ts[at] = rep.to_string();
